@@ -560,6 +560,32 @@ func BuildPool(seed int) *Pool {
 			p.Specs = append(p.Specs, &gen.FileSpec{Type: 4, Proto: 0x20, FileId: gen.MsgSpec{Fields: map[string]fitmodel.Val{}},
 				Slots: []gen.SlotSpec{{Name: "Hrs", Msgs: []gen.MsgSpec{{Global: 132, Fields: map[string]fitmodel.Val{"EventTimestamp12": fitmodel.Arr(elems)}}}}}})
 		}
+		// strings longer than, exactly at and shorter than their profile
+		// length in messages of the same type (file_id.product_name: 20,
+		// sport.name: 16), valid UTF-8 throughout
+		for _, name := range []string{"a product name that is much longer than twenty bytes", "exactly twenty bytes", "short"} {
+			p.Specs = append(p.Specs, &gen.FileSpec{Type: 4, Proto: 0x20, HdrCRC: len(name)%2 == 0,
+				FileId: gen.MsgSpec{Fields: map[string]fitmodel.Val{"ProductName": fitmodel.S(name)}},
+				Slots:  []gen.SlotSpec{{Name: "Sport", Msgs: []gen.MsgSpec{{Global: 12, Fields: map[string]fitmodel.Val{"Name": fitmodel.S(name)}}}}}})
+		}
+		// compressed-timestamp records of messages that have no timestamp
+		// field (file_creator, an unknown message) after a reference
+		// timestamp, and a plain twin of the same stream
+		for _, compressed := range []bool{true, false} {
+			s := &fitmodel.Stream{HeaderSize: 12, Proto: 0x20, Recs: []fitmodel.Rec{
+				{IsDef: true, Global: 0, Fields: []fitmodel.FieldDef{{Num: 0, Size: 1, Base: 0}}}, {Raw: []byte{4}},
+				{IsDef: true, Local: 1, Global: 20, Fields: []fitmodel.FieldDef{{Num: 253, Size: 4, Base: 0x86}, {Num: 3, Size: 1, Base: 2}}},
+				{Local: 1, Raw: []byte{0x20, 0xCA, 0x9A, 0x3B, 90}},
+				{IsDef: true, Local: 2, Global: 49, Fields: []fitmodel.FieldDef{{Num: 0, Size: 2, Base: 0x84}}},
+				{IsDef: true, Local: 3, Global: 0xFF42, Fields: []fitmodel.FieldDef{{Num: 1, Size: 1, Base: 2}}},
+				{Local: 2, Compressed: compressed, TimeOffset: 5, Raw: []byte{7, 0}},
+				{Local: 3, Compressed: compressed, TimeOffset: 9, Raw: []byte{1}},
+				{Local: 2, Compressed: compressed, TimeOffset: 11, Raw: []byte{8, 0}},
+				{Local: 1, Raw: []byte{0x40, 0xCA, 0x9A, 0x3B, 91}},
+			}}
+			p.Bytes = append(p.Bytes, s.Bytes())
+			p.Names = append(p.Names, "compressed headers on messages without a timestamp field")
+		}
 		return p
 	})
 	return g.Example(seed)
